@@ -49,8 +49,12 @@ type Options struct {
 	Depth     int
 	MaxStates int
 	Deadline  time.Time
-	// MaxViolations stops the search early (0 = 8).
+	// MaxViolations stops the search early (0 = 64 recorded violations).
 	MaxViolations int
+	// Classify maps a violation text to its class; at most 3 violations are recorded per
+	// class so that a frequent (e.g. already known) class cannot exhaust MaxViolations and
+	// hide a different one.
+	Classify func(what string) string
 	// KeepGoing: expand states even after a violating transition was seen elsewhere.
 }
 
@@ -66,8 +70,9 @@ func names(sc Scenario, p []int) []string {
 func Explore(sc Scenario, opt Options) *Result {
 	res := &Result{Scenario: sc.Name(), Obs: map[string]struct{}{}}
 	if opt.MaxViolations == 0 {
-		opt.MaxViolations = 8
+		opt.MaxViolations = 64
 	}
+	perClass := map[string]int{}
 	seen := map[string]struct{}{}
 	sc.Reset()
 	seen[sc.Key()] = struct{}{}
@@ -108,6 +113,14 @@ func Explore(sc Scenario, opt Options) *Result {
 				res.Transitions++
 				res.Obs[obs] = struct{}{}
 				if viol != "" {
+					cls := viol
+					if opt.Classify != nil {
+						cls = opt.Classify(viol)
+					}
+					perClass[cls]++
+					if perClass[cls] > 3 {
+						continue
+					}
 					np := append(append([]int(nil), path...), op)
 					res.Violations = append(res.Violations, &Violation{Path: np, Ops: names(sc, np), What: viol})
 					if len(res.Violations) >= opt.MaxViolations {
